@@ -109,6 +109,14 @@ impl AsyncDB for LogDb {
         YieldN(k).await;
         if sql.starts_with("fail") {
             Err(LogErr("boom".into()))
+        } else if sql.starts_with("unsorted3") {
+            Ok(DBOutput::Rows {
+                types: vec![DefaultColumnType::Text],
+                // (two values: not more than the hash threshold of 2)
+                rows: vec![vec!["b".to_string()], vec!["a".to_string()]],
+            })
+        } else if sql.starts_with("typed1") {
+            Ok(DBOutput::Rows { types: vec![DefaultColumnType::Integer], rows: vec![vec!["1".to_string()]] })
         } else if sql.starts_with("hash3") {
             Ok(DBOutput::Rows {
                 types: vec![DefaultColumnType::Text],
@@ -171,6 +179,14 @@ fn file_text(r: &mut Rng, path: &str, kind: &str) -> String {
             // what the parent runner was configured with holds for every file: hash threshold 2 ...
             let digest = crate::gen::md5_hex(&["a".to_string(), "b".to_string(), "c".to_string()]);
             t.push_str(&format!("query T\nhash3 -- F{path}\n----\n3 values hashing to {digest}\n\n"));
+        } else if r.chance(1, 6) {
+            // ... the sort mode a control record left in force on the parent ...
+            t.push_str(&format!("query T\nunsorted3 -- F{path}\n----\na\nb\n\n"));
+        } else if r.chance(1, 6) {
+            // ... the strict column validator (a wrong type letter fails; under `pass` the letter is right) ...
+            t.push_str(&format!("query I\ntyped1 -- F{path}\n----\n1\n\n"));
+        } else if kind == "fail" && r.chance(1, 3) {
+            return format!("query T\ntyped1 -- F{path}\n----\n1\n\n");
         } else if r.chance(1, 5) {
             // ... and the label PL
             t.push_str(&format!("onlyif PL\nstatement ok\nselect labelled -- F{path}\n\nskipif PL\nstatement ok\nfail skipped -- F{path}\n\n"));
@@ -266,7 +282,10 @@ pub fn gen_libpar(r: &mut Rng, idx: usize) -> LibCase {
                 parent.with_partitioner(move |name: &str| name_hash(name) % count == id);
             }
             parent.with_hash_threshold(2);
+            parent.with_column_validator(sqllogictest::strict_column_validator);
             parent.add_label("PL");
+            // a control record run on the parent before: its effect is part of the runner's state
+            let _ = parent.run_script_async("control sortmode rowsort\n").await;
             // the parent's own `__DATABASE__` (the CLI binds it on every runner) is not the files'
             parent.set_var("__DATABASE__".to_string(), MGMT.to_string());
             let res = parent.run_parallel_async(&glob, vec!["h".into()], lib_builder, jobs).await;
